@@ -375,4 +375,138 @@ theorem C17_routeOrtho_scale (c ls : Rat) (hc : 0 < c) (g : G) (routes : List (N
     routeOrtho (c * ls) (scaleGP c g) routes = (routeOrtho ls g routes).map (scaleGP c) :=
   foldlM_scale (scaleGP c) (orthoStep ls) (orthoStep (c * ls)) (orthoStep_scale c ls hc) routes g
 
+
+/-! ### merging the long edges back never looks at a size: it commutes with the scaling -/
+
+theorem scaleGP_nsize (c : Rat) (g : G) : (scaleGP c g).nodes.size = g.nodes.size := by simp [scaleGP, scaleG]
+
+theorem scaleGP_node_top (c : Rat) (g : G) (n : Nat) :
+    ((scaleGP c g).node n).ins = (g.node n).ins ∧ ((scaleGP c g).node n).outs = (g.node n).outs ∧
+    ((scaleGP c g).node n).layer = (g.node n).layer ∧ ((scaleGP c g).node n).pos = (g.node n).pos ∧
+    ((scaleGP c g).node n).virt = (g.node n).virt := by
+  rw [scaleGP_node]
+  simp only [scaleG, G.node, Array.getD_eq_getD_getElem?, Array.getElem?_map]
+  cases g.nodes[n]? with
+  | none => simp [default, instInhabitedNode.default]
+  | some nd => simp
+
+theorem scaleGP_edge_ends (c : Rat) (g : G) (e : Nat) :
+    ((scaleGP c g).edge e).src = (g.edge e).src ∧ ((scaleGP c g).edge e).dst = (g.edge e).dst ∧
+    ((scaleGP c g).edge e).rev = (g.edge e).rev := by
+  rw [scaleGP_edge]; exact ⟨rfl, rfl, rfl⟩
+
+theorem scaleGP_edgeType (c : Rat) (g : G) (e : Nat) : edgeType (scaleGP c g) e = edgeType g e := by
+  simp only [edgeType, (scaleGP_edge_ends c g e).1, (scaleGP_edge_ends c g e).2.1, (scaleGP_node_top c g _).2.2.2.2]
+
+theorem scaleGP_orderedNodes (c : Rat) (g : G) (e : Nat) : orderedNodes (scaleGP c g) e = orderedNodes g e := by
+  simp only [orderedNodes, G.layerOf, (scaleGP_edge_ends c g e).1, (scaleGP_edge_ends c g e).2.1,
+    (scaleGP_node_top c g _).2.2.1, (scaleGP_node_top c g _).2.2.2.1]
+  rfl
+
+/-- a node update that touches no size or coordinate commutes with the scaling -/
+theorem scaleGP_modNode (c : Rat) (g : G) (n : Nat) (f : Node → Node)
+    (hf : ∀ nd : Node, f { nd with x := c * nd.x, y := c * nd.y, w := c * nd.w, h := c * nd.h } =
+      { f nd with x := c * (f nd).x, y := c * (f nd).y, w := c * (f nd).w, h := c * (f nd).h }) :
+    (scaleGP c g).modNode n f = scaleGP c (g.modNode n f) := by
+  simp only [G.modNode, scaleGP, scaleG]
+  congr 1
+  apply array_map_modify
+  exact hf
+
+/-- an edge update that touches no route point commutes with the scaling -/
+theorem scaleGP_modEdge (c : Rat) (g : G) (e : Nat) (f : Edge → Edge)
+    (hf : ∀ ed : Edge, f { ed with pts := ed.pts.map (scalePt c) } = { f ed with pts := (f ed).pts.map (scalePt c) }) :
+    (scaleGP c g).modEdge e f = scaleGP c (g.modEdge e f) := by
+  simp only [G.modEdge, scaleGP, scaleG]
+  congr 1
+  apply array_map_modify
+  exact hf
+
+/-- the merge state with its graph scaled -/
+def scaleMS (c : Rat) (s : MergeSt) : MergeSt := { s with g := scaleGP c s.g }
+
+theorem reduceForward_scale (c : Rat) : ∀ (fuel : Nat) (s : MergeSt) (e : Nat) (ns : List Nat),
+    reduceForward fuel (scaleMS c s) e ns = (reduceForward fuel s e ns).map fun r => (scaleMS c r.1, r.2)
+  | 0, _, _, _ => rfl
+  | fuel + 1, s, e, ns => by
+    unfold reduceForward
+    simp only [scaleMS, (scaleGP_edge_ends c s.g _).2.1, (scaleGP_node_top c s.g _).2.2.2.2, (scaleGP_node_top c s.g _).2.1,
+      (scaleGP_edge_ends c s.g _).1, scaleGP_orderedNodes]
+    split
+    · split
+      · rename_i f hf
+        have h1 := scaleGP_modNode c s.g (s.g.edge f).dst (fun n => { n with ins := G.removeE n.ins f }) (fun _ => rfl)
+        rw [h1]
+        have h2 := scaleGP_modNode c (s.g.modNode (s.g.edge f).dst fun n => { n with ins := G.removeE n.ins f })
+          (s.g.edge f).dst (fun n => { n with ins := n.ins ++ [e] }) (fun _ => rfl)
+        rw [h2]
+        have h3 := scaleGP_modEdge c ((s.g.modNode (s.g.edge f).dst fun n => { n with ins := G.removeE n.ins f }).modNode
+          (s.g.edge f).dst (fun n => { n with ins := n.ins ++ [e] })) e (fun ed => { ed with dst := (s.g.edge f).dst }) (fun _ => rfl)
+        rw [h3]
+        exact reduceForward_scale c fuel
+          ⟨_, (GoRangeRemove.physRemove s.arr s.len f).1, (GoRangeRemove.physRemove s.arr s.len f).2⟩ e _
+      · rfl
+    · have h3 := scaleGP_modEdge c s.g e (fun ed => { ed with ahs := ed.rev }) (fun _ => rfl)
+      simp only [h3, pure, Except.pure, Except.map]
+
+theorem mergeStep_scale (c : Rat) (acc : MergeSt × List (Nat × List Nat)) (k : Nat) :
+    mergeStep (scaleMS c acc.1, acc.2) k = (mergeStep acc k).map fun r => (scaleMS c r.1, r.2) := by
+  unfold mergeStep
+  simp only [scaleMS, scaleGP_edgeType, scaleGP_orderedNodes, (scaleGP_edge_ends c acc.1.g _).1,
+    (scaleGP_node_top c acc.1.g _).2.2.2.2, scaleGP_nsize]
+  split
+  · have h3 := scaleGP_modEdge c acc.1.g (acc.1.arr.getD k 0) (fun ed => { ed with ahs := ed.rev }) (fun _ => rfl)
+    simp only [h3, pure, Except.pure, Except.map]
+  · split
+    · have := reduceForward_scale c (acc.1.g.nodes.size + 2) acc.1 (acc.1.arr.getD k 0) [(acc.1.g.edge (acc.1.arr.getD k 0)).src]
+      simp only [scaleMS] at this
+      simp only [bind, Except.bind, this]
+      cases reduceForward (acc.1.g.nodes.size + 2) acc.1 (acc.1.arr.getD k 0) [(acc.1.g.edge (acc.1.arr.getD k 0)).src] with
+      | error e => rfl
+      | ok r => rfl
+    · rfl
+  · rfl
+
+theorem foldlM_mergeStep_scale (c : Rat) : ∀ (l : List Nat) (acc : MergeSt × List (Nat × List Nat)),
+    l.foldlM mergeStep (scaleMS c acc.1, acc.2) = (l.foldlM mergeStep acc).map fun r => (scaleMS c r.1, r.2)
+  | [], _ => rfl
+  | k :: l, acc => by
+    simp only [List.foldlM_cons, bind, Except.bind, mergeStep_scale]
+    cases mergeStep acc k with
+    | error e => rfl
+    | ok r => exact foldlM_mergeStep_scale c l r
+
+/-- `mergeLongEdges` on the scaled state gives the scaled state and the same routes -/
+theorem mergeLongEdges_scale (c : Rat) (g : G) :
+    mergeLongEdges (scaleGP c g) = (mergeLongEdges g).map fun r => (scaleGP c r.1, r.2) := by
+  unfold mergeLongEdges
+  have h := foldlM_mergeStep_scale c (List.range g.elist.length) ({ g := g, arr := g.elist, len := g.elist.length }, [])
+  simp only [scaleMS] at h
+  have he : (scaleGP c g).elist = g.elist := rfl
+  simp only [he, bind, Except.bind, h]
+  cases List.foldlM mergeStep ({ g := g, arr := g.elist, len := g.elist.length }, []) (List.range g.elist.length) with
+  | error e => rfl
+  | ok r => rfl
+
+/-- **C17, phase 5 as a whole** (merging the long edges, then the Straight, Polyline or Orthogonal router, or none): on the state with
+    every size, coordinate and LayerSpacing multiplied by c > 0 it returns the scaled result, with the same failures -/
+theorem C17_phase5_scale (c ls : Rat) (hc : 0 < c) (alg : Nat) (g : G) :
+    phase5 alg (c * ls) (scaleGP c g) = (phase5 alg ls g).map (scaleGP c) := by
+  unfold phase5
+  simp only [scaleGP_nsize]
+  split
+  · rfl
+  · simp only [bind, Except.bind, mergeLongEdges_scale]
+    cases mergeLongEdges g with
+    | error e => rfl
+    | ok r =>
+      obtain ⟨g', routes⟩ := r
+      simp only [Except.map]
+      split
+      · rfl
+      · exact C17_routeStraight_scale c g' routes
+      · exact C17_routePolyline_scale c g' routes
+      · exact C17_routeOrtho_scale c ls hc g' routes
+      · rfl
+
 end Autog
